@@ -127,6 +127,12 @@ def run(chk):
                "header-kinds-agree", fset.qname, f"a header given as NumPy scalars is written as {hd}: it must be a plain-YAML mapping of built-in "
                "numbers (np.int64 / np.float64 would carry python tags the Rust YAML loader cannot read as i64 / f64)", where=fset.where,
                instance="normalised", how="PE on a model file system")
+    chk.decide(isinstance(hd, tuple) and isinstance(hd[1], dict) and hd[1].get("scale") == Fraction(9) and hd[1].get("nf") == 4 and set(hd[1]) == {"scale", "nf"},
+               "header-values-are-the-header-fields", fset.qname,
+               f"the header (scale = 9, nf = 4) is written as {hd[1] if isinstance(hd, tuple) else hd}: the reader takes the stored numbers as the squared "
+               "scale and the flavour number themselves, so the file has to hold the fields unchanged (a stored square root, a rescaled or renamed "
+               "field is another evolution point for the Rust reader, and does not survive the way back in floating point either)", where=fset.where,
+               instance="values", how="PE on a model file system")
     # ---- (3) operator files ------------------------------------------------------------------------------------------------------------
     we = finv.find(r'\.with_extension\(\s*"([^"]+)"\s*\)')
     chk.need(len(we) == 1, "the reader no longer derives the operator file name with one with_extension(...)")
